@@ -196,6 +196,19 @@ func (o *lifeOracle) c12(e *Env, si *StepInfo) {
 		}
 		w, _ := hasWaiting(cur, ord)
 		pending := ord.Status == ordertypes.OrderPending
+		if !pending && si.Kind == "end" && h < ord.CreatedAt+ord.Duration {
+			// (before the first of its shards can expire) every replica that is paid for is either stored or still being worked on; a replica
+			// that is neither has been given up and must have been taken off the order (and refunded)
+			live := 0
+			for _, sid := range ord.Shards {
+				if sh, ok := cur.Order.Shards[sid]; ok && sh.Status != ordertypes.ShardTimeout {
+					live++
+				}
+			}
+			if live < int(ord.Replica) {
+				o.once(e, "C12", "C12.unfulfilled", "block", "replica-neither-stored-nor-in-progress", fmt.Sprint(id), fmt.Sprintf("order %d pays for %d replicas but only %d shard(s) are stored or in progress at height %d (shards %v): the unfulfilled replica is neither re-assigned nor refunded", id, ord.Replica, live, h, ord.Shards))
+			}
+		}
 		if w == 0 && !pending {
 			delete(o.waiting, id)
 			continue
